@@ -238,10 +238,15 @@ class Decoder:
                 raise FormatError("%s: address out of range" % what)
             return ["ip", 4 if n < 2**32 else 6, n, None]
         if t in NET_TYPES:
+            text = _text(w, what)
             try:
-                net = _ip.ip_network(_text(w, what))
+                net = _ip.ip_network(text)
             except ValueError as e:
                 raise FormatError("%s: bad network: %s" % (what, e))
+            if text != net.compressed:
+                # the frozen encoding is the compressed "address/prefixlen" text (a bare address or a netmask spelling
+                # names the same network but is not what the format holds)
+                raise FormatError("%s: network %r is not in the format's address/prefixlen form %r" % (what, text, net.compressed))
             return ["net", net.version, net.compressed]
         if t == "net.ipv4.Address":
             return ["ipv4addr", _intval(w, what, self)]
